@@ -129,7 +129,7 @@ func (k msgServer) AddExternalIncentive(goCtx context.Context, msg *types.MsgAdd
 			sdk.NewAttribute(types.AttributePoolId, fmt.Sprintf("%d", msg.PoolId)),
 			sdk.NewAttribute(types.AttributeFromBlock, fmt.Sprintf("%d", msg.FromBlock)),
 			sdk.NewAttribute(types.AttributeToBlock, fmt.Sprintf("%d", msg.ToBlock)),
-			sdk.NewAttribute(types.AttributeAmountPerBlock, fmt.Sprintf("%d", msg.AmountPerBlock)),
+			sdk.NewAttribute(types.AttributeAmountPerBlock, msg.AmountPerBlock.String()),
 		),
 	})
 	return &types.MsgAddExternalIncentiveResponse{}, nil
